@@ -114,6 +114,12 @@ def make_param(eng, st, name, ann, override=None):
             return o
         if not isinstance(kind, str):
             return kind          # concrete structural value
+        if kind == 'comm':
+            o = Obj(('<mpi>', 'Comm'))
+            st.objs[o.oid] = {'cid': name}
+            return o
+        if kind == 'opaque':
+            return V.Opaque()
         if kind == 'buf':
             from .bufs import BufRef
             return BufRef.of(eng.new_buf(st, name))
